@@ -63,12 +63,15 @@ func VerifC07gTerminal(k int) {
 	dlog.VerifInstallReal(source.Client, "stdout")
 	c07gTerminal = nil
 	var want [2][]string
+	// what a log line may contain: printf verbs and per-cent signs included
+	texts := []string{"line-", "disk 93% full ", "%s %d %% ", "%!"}
+	text := texts[verifrt.Choose("content", len(texts))]
 	done := make(chan struct{}, 2)
 	for src := 0; src < 2; src++ {
 		h := chandlers.NewClientHandler("srv" + string(rune('A'+src)))
 		var wire []byte
 		for i := 0; i < k; i++ {
-			rec := "REMOTE|host" + string(rune('A'+src)) + "|100|" + string(rune('1'+i)) + "|f|line-" + string(rune('a'+i)) + "\n"
+			rec := "REMOTE|host" + string(rune('A'+src)) + "|100|" + string(rune('1'+i)) + "|f|" + text + string(rune('a'+i)) + "\n"
 			want[src] = append(want[src], rec)
 			wire = append(wire, rec...)
 			wire = append(wire, 0xAC)
